@@ -117,6 +117,9 @@ type Conn struct {
 	// write stall: called before each write, outside locks (may sleep)
 	beforeWrite func(n int)
 	onClose     func()
+	// close fault: Close still closes both directions but reports this error (a socket whose
+	// close fails, e.g. one already closed by another holder of the raw conn)
+	closeErr error
 }
 
 // Pipe returns the two ends of a buffered duplex connection.
@@ -189,9 +192,10 @@ func (c *Conn) Write(p []byte) (int, error) {
 func (c *Conn) Close() error {
 	c.mu.Lock()
 	c.closeCount++
+	cerr := c.closeErr
 	if c.closed {
 		c.mu.Unlock()
-		return nil
+		return cerr
 	}
 	c.closed = true
 	f := c.onClose
@@ -201,8 +205,11 @@ func (c *Conn) Close() error {
 	if f != nil {
 		f()
 	}
-	return nil
+	return cerr
 }
+
+// FailClose makes every Close call report err (the connection is closed all the same).
+func (c *Conn) FailClose(err error) { c.mu.Lock(); c.closeErr = err; c.mu.Unlock() }
 
 // CloseWrite half-closes: the peer sees EOF, this end can still read.
 func (c *Conn) CloseWrite() { c.out.closeWrite() }
